@@ -77,3 +77,160 @@ Section Checker.
     | _ => raises obs (ValueError NotTwoDim)
     end.
 End Checker.
+
+(* ====================================================================== soundness (real-number instance) *)
+From Shampoo Require Import EigenvectorsProofs.
+Local Open Scope R_scope.
+
+Section Sound.
+  Variable rnd : R -> R.
+  Notation Op := (R_ops rnd).
+
+  Definition near_orth (n : nat) (tol : R) (Q : mat R) : Prop :=
+    forall i j, (i < n)%nat -> (j < n)%nat -> Rabs (mmul Op n (mtrans Q) Q i j - mid Op i j) <= tol.
+  Definition near_diag (n : nat) (tol : R) (A Q : mat R) : Prop :=
+    forall i j, (i < n)%nat -> (j < n)%nat -> i <> j -> Rabs (mmul Op n (mtrans Q) (mmul Op n A Q) i j) <= tol.
+  Definition near_ascending (n : nat) (tol : R) (A Q : mat R) : Prop :=
+    forall i, (S i < n)%nat -> rq rnd n A Q i <= rq rnd n A Q (S i) + tol.
+
+  Definition eig_path_ok (n : nat) (tol : R) (A : mat R) (raised : bool) (obs : observed R) : Prop :=
+    match obs with
+    | ObsOk sh Q => sh = [n; n] /\ near_orth n tol Q /\ near_diag n tol A Q /\ near_ascending n tol A Q
+    | ObsRaise e => raised = true /\ e = OracleError
+    end.
+
+  (* the property predicate, on one observed behaviour: branch structure by the (exact) tests of the dispatch,
+     content as propositions over the reals *)
+  Definition C12_holds_at (tol : R) (shape : list nat) (A : mat R) (estimate : option (mat R)) (cfg : config R)
+             (is_diagonal raised : bool) (obs : observed R) : Prop :=
+    if (numel shape =? 1)%nat then
+      match obs with ObsOk sh Q => sh = shape /\ Q 0%nat 0%nat = 1 | _ => False end
+    else match shape with
+    | [r; c] =>
+        if negb (r =? c)%nat then obs = ObsRaise (ValueError NotSquare)
+        else if is_diagonal then
+          match obs with ObsOk sh Q => sh = [r; r] /\ meq r Q (mid Op) | _ => False end
+        else match cfg with
+        | EighCfg _ => eig_path_ok r tol A raised obs
+        | QRCfg mi _ =>
+            match estimate with
+            | None => obs = ObsRaise AssertionError
+            | Some E =>
+                if is_zero_mat Op r E then eig_path_ok r tol A raised obs
+                else match obs with
+                     | ObsOk sh Q => sh = [r; r] /\ (((1 <= mi)%Z \/ near_orth r tol E) -> near_orth r tol Q)
+                                     /\ near_ascending r tol A Q
+                     | ObsRaise e => raised = true /\ e = OracleError
+                     end
+            end
+        | OtherCfg => obs = ObsRaise NotImplementedError
+        end
+    | _ => obs = ObsRaise (ValueError NotTwoDim)
+    end.
+
+  Lemma exn_eqb_eq a b : exn_eqb a b = true -> a = b.
+  Proof. destruct a as [[|]| | | |], b as [[|]| | | |]; cbn; intros H; try discriminate; reflexivity. Qed.
+  Lemma shape_eqb_eq a b : shape_eqb a b = true -> a = b.
+  Proof.
+    unfold shape_eqb. revert b; induction a as [|x a IH]; destruct b as [|y b]; cbn [Show.list_eqb]; intros H; try discriminate; [reflexivity|].
+    apply andb_true_iff in H. destruct H as [H1 H2]. apply Nat.eqb_eq in H1. f_equal; auto.
+  Qed.
+  Lemma raises_eq (obs : observed R) e : raises obs e = true -> obs = ObsRaise e.
+  Proof. destruct obs as [sh Q|e']; cbn [raises]; [discriminate|]. intros H. apply exn_eqb_eq in H. subst. reflexivity. Qed.
+
+  Lemma near_orthb_sound n tol Q : near_orthb Op n tol Q = true -> near_orth n tol Q.
+  Proof.
+    unfold near_orthb, mdist_le. rewrite forall2_lt_true. intros H i j Hi Hj. specialize (H i j Hi Hj).
+    cbn [fleb fabs fsub R_ops] in H. apply Rleb_true in H. exact H.
+  Qed.
+  Lemma near_diagb_sound n tol A Q : near_diagb Op n tol A Q = true -> near_diag n tol A Q.
+  Proof.
+    unfold near_diagb. rewrite forall2_lt_true. intros H i j Hi Hj Hne. specialize (H i j Hi Hj).
+    apply Nat.eqb_neq in Hne. rewrite Hne in H. cbn [fleb fabs R_ops] in H. apply Rleb_true in H. exact H.
+  Qed.
+  Lemma ascendingb_sound n tol A Q : ascendingb Op n tol A Q = true -> near_ascending n tol A Q.
+  Proof.
+    unfold ascendingb. rewrite forall_lt_true. intros H i Hi. specialize (H i ltac:(lia)).
+    cbn [fleb fadd R_ops] in H. apply Rleb_true in H.
+    rewrite !(rayleigh_get rnd) in H by lia. exact H.
+  Qed.
+  Lemma is_identityb_sound n Q : is_identityb Op n Q = true -> meq n Q (mid Op).
+  Proof.
+    unfold is_identityb. rewrite forall2_lt_true. intros H i j Hi Hj. specialize (H i j Hi Hj).
+    cbn [feqb R_ops] in H. apply Reqb_true in H. exact H.
+  Qed.
+
+  Lemma eig_path_sound n tol A raised obs :
+    match obs with
+    | ObsOk sh Q => shape_eqb sh [n; n] && near_orthb Op n tol Q && near_diagb Op n tol A Q && ascendingb Op n tol A Q
+    | ObsRaise e => raised && exn_eqb e OracleError
+    end = true -> eig_path_ok n tol A raised obs.
+  Proof.
+    destruct obs as [sh Q|e]; cbn [eig_path_ok]; intros H.
+    - repeat (apply andb_true_iff in H; destruct H as [H ?]).
+      split; [apply shape_eqb_eq; exact H|]. split; [apply near_orthb_sound; assumption|].
+      split; [apply near_diagb_sound; assumption|apply ascendingb_sound; assumption].
+    - apply andb_true_iff in H. destruct H as [H1 H2]. split; [exact H1|apply exn_eqb_eq; exact H2].
+  Qed.
+
+  (* SOUNDNESS: a [true] of the checker (real-number instance) means the property predicate holds at the observation *)
+  Theorem C12_checkb_sound tol shape A estimate cfg is_diagonal raised obs :
+    C12_checkb Op tol shape A estimate cfg is_diagonal raised obs = true ->
+    C12_holds_at tol shape A estimate cfg is_diagonal raised obs.
+  Proof.
+    unfold C12_checkb, C12_holds_at. destruct (numel shape =? 1)%nat.
+    - destruct obs as [sh Q|e]; [|discriminate]. intros H. apply andb_true_iff in H. destruct H as [H1 H2].
+      split; [apply shape_eqb_eq; exact H1|]. cbn [feqb f1 R_ops] in H2. apply Reqb_true in H2. exact H2.
+    - destruct shape as [|r [|c [|x sh]]]; try apply raises_eq.
+      destruct (negb (r =? c)%nat); [apply raises_eq|]. destruct is_diagonal.
+      + destruct obs as [sh Q|e]; [|discriminate]. intros H. apply andb_true_iff in H. destruct H as [H1 H2].
+        split; [apply shape_eqb_eq; exact H1|apply is_identityb_sound; exact H2].
+      + destruct cfg as [retry|mi tl|]; [apply eig_path_sound| |apply raises_eq].
+        destruct estimate as [E|]; [|apply raises_eq].
+        destruct (is_zero_mat Op r E); [apply eig_path_sound|].
+        destruct obs as [sh Q|e]; intros H.
+        * repeat (apply andb_true_iff in H; destruct H as [H ?]).
+          split; [apply shape_eqb_eq; exact H|]. split; [|apply ascendingb_sound; assumption].
+          intros Hpre. apply orb_true_iff in H1. destruct H1 as [H1|H1]; [|apply near_orthb_sound; exact H1].
+          apply negb_true_iff in H1. apply orb_false_iff in H1. destruct H1 as [Ha Hb].
+          destruct Hpre as [Hpre|Hpre]; [apply Z.leb_le in Hpre; congruence|].
+          exfalso. (* the estimate passes the test over the reals *)
+          assert (near_orthb Op r tol E = true) as Hc.
+          { unfold near_orthb, mdist_le. apply forall2_lt_true. intros i j Hi Hj. cbn [fleb fabs fsub R_ops].
+            apply Rleb_true. apply Hpre; assumption. }
+          congruence.
+        * apply andb_true_iff in H. destruct H as [H1 H2]. split; [exact H1|apply exn_eqb_eq; exact H2].
+  Qed.
+
+  (* with tolerance 0 the three tests are the exact predicates of the C12 theorems *)
+  Lemma near_orth_0 n Q : near_orth n 0 Q -> morth_cols Op n Q.
+  Proof.
+    intros H i j Hi Hj. specialize (H i j Hi Hj).
+    assert (Rabs (mmul Op n (mtrans Q) Q i j - mid Op i j) = 0) as Hz by (pose proof (Rabs_pos (mmul Op n (mtrans Q) Q i j - mid Op i j)); lra).
+    destruct (Req_dec (mmul Op n (mtrans Q) Q i j - mid Op i j) 0) as [E|E]; [lra|]. apply Rabs_no_R0 in E. contradiction.
+  Qed.
+  Lemma near_diag_0 n A Q : near_diag n 0 A Q -> mis_diag Op n (mmul Op n (mtrans Q) (mmul Op n A Q)).
+  Proof.
+    intros H i j Hi Hj Hne. specialize (H i j Hi Hj Hne). cbn [f0 R_ops].
+    set (x := mmul Op n (mtrans Q) (mmul Op n A Q) i j) in *.
+    destruct (Req_dec x 0) as [E|E]; [exact E|]. apply Rabs_no_R0 in E. pose proof (Rabs_pos x). lra.
+  Qed.
+  Lemma near_ascending_0 n A Q : near_ascending n 0 A Q -> forall i j, (i < j)%nat -> (j < n)%nat -> rq rnd n A Q i <= rq rnd n A Q j.
+  Proof.
+    intros H i j Hij Hj. induction j as [|j IH]; [lia|].
+    destruct (Nat.eq_dec i j) as [->|Hne].
+    - specialize (H j Hj). lra.
+    - specialize (H j Hj). specialize (IH ltac:(lia) ltac:(lia)). lra.
+  Qed.
+
+  Theorem C12_checkb_sound_exact n A cfg_retry Q :
+    n <> 1%nat ->
+    C12_checkb Op 0 [n; n] A None (EighCfg cfg_retry) false false (ObsOk [n; n] Q) = true ->
+    morth_cols Op n Q /\ mis_diag Op n (mmul Op n (mtrans Q) (mmul Op n A Q))
+    /\ (forall i j, (i < j)%nat -> (j < n)%nat -> rq rnd n A Q i <= rq rnd n A Q j).
+  Proof.
+    intros Hn H. apply C12_checkb_sound in H. unfold C12_holds_at in H.
+    rewrite (numel_square_1 n) in H. apply Nat.eqb_neq in Hn. rewrite Hn, Nat.eqb_refl in H. cbn [negb eig_path_ok] in H.
+    destruct H as (_ & H1 & H2 & H3). split; [apply near_orth_0; exact H1|]. split; [apply near_diag_0; exact H2|apply near_ascending_0; exact H3].
+  Qed.
+End Sound.
